@@ -58,3 +58,8 @@ pub fn sync_point(label: &str) {
         cb(label);
     }
 }
+
+/// `MetaStore::serialize` needs a tracer whose type is crate-private; this wrapper supplies a throw-away one.
+pub fn verif_metastore_serialize(meta_store: &MetaStore) -> Vec<u8> {
+    meta_store.serialize(&mut crate::observability::SimpleTracer::default())
+}
